@@ -193,7 +193,7 @@ def resolve_engine():
 VERIFY_RESOLVE = [ResolvePortref()]
 
 
-def update_ref_deps_obligations():
+def update_ref_deps_obligations(max_arity=3):
     """update_ref_deps(ref, resolved): the three loop bodies located in the current source, each executed for one
     arbitrary element: (1) a connected port is re-connected through replace(portname, resolved); (2) a dependent slice
     gets `resolved` as parent; (3) a dependent concatenation keeps its parts in order with every occurrence of the
@@ -280,7 +280,7 @@ def update_ref_deps_obligations():
                 return s2.heap.get("parent", extra[tgt].z) == resolved.z
             run_body(loop, setup, judge, "dependent-slice")
         elif "_concats" in src and tgt:
-            for arity in (1, 2, 3):
+            for arity in range(1, max_arity + 1):
                 for pos in range(arity):
                     def setup(eng, st, ref, resolved, tgt=tgt, arity=arity, pos=pos):
                         cc = sym_ref(st, "concat", (Concat,))
